@@ -261,6 +261,22 @@ def parse_impl(s, raw):
     return G.parse_harness_transcript(s["lines"], nvlib.unhex(raw).decode("latin-1"))
 
 
+REGRESSION_SESSIONS = [
+    ("msp430", {}, "write 30h 7 8\nwrite 0 10 20h\nprint 0-0x31\nprint 0x30-\nprint 2fh-30h"),
+    ("avr8", {"main": 0x10, "tab": 0x12}, "write main 1 2 3 4\nwrite16 tab 0xbeef 10 20h\nprint main-tab\nprint16 tab\ndisasm main-tab\n"
+                                          "print 0x10-0x11\nprint 0x10-\ninfo"),
+    ("avr8", {}, "asm 0x9000\nnop\nldi r16, 5\n\ndisasm\nasm\nldi r17, 2\n\ndisasm 0x9000-0x9002\nprint16 0x9000-0x9002\ninfo"),
+    ("avr8", {}, "write 0x40000000 1 2\nwrite16 0x7fffffff 3\ninfo"),
+    ("propeller", {}, "write32 0x3fffffff 0x11223344\nprint32 0x3fffffff\nwrite 0x20000000 1"),
+    ("ps2_ee", {}, "write32 0x1004 0x12345678\nprint32 0x1004-0x1007\nwrite32 0x1002 1\nprint32 0x1002-0x1005"),
+    ("riscv64", {}, "write32 0x1004 0x12345678\nprint32 0x1004-0x1007"),
+    ("68000", {}, "write16 0x20 0x1234 0xabcd\nprint16 0x20-0x23\nprint 0x20-0x23\nwrite32 0x30 0x12345678\nprint 0x30-0x33\nwrite16 0x41 7"),
+    ("msp430", {}, "asm\n; nothing\n\nasm\nnop\n\ninfo\nprint16 0-1"),
+    ("msp430", {}, "write 0xffffffff 1\ndisasm\nwrite 0xfffffffc 1 2 3 4\nprint 0xfffffffc-0xffffffff\nprint16 0xfffffffe-0xffffffff\ndisasm"),
+    ("msp430", {}, "write 0 0x80000000 ffffffffh 0xFFFFFFFF -1 4294967295 4294967296\nprint 0-5\nwrite32 8 0x80000000 ffffffffh -1\nprint32 8-19"),
+]
+
+
 def correspondence(ctx, corr):
     rng = ctx.rng
     reps, names = cpus(ctx)
@@ -277,8 +293,21 @@ def correspondence(ctx, corr):
             corr["disagreements"].append({"line": l + "   # " + repr(nvlib.unhex(l.split(" ")[2]).decode("latin-1")), "impl": a, "model": b})
     corr["cases"] += len(ul)
     corr["streams"]["unum"] = {"lines": len(ul), "impl_answer_kinds": kinds}
-    # 2. sessions
+    # 2. sessions; first the scripts of the defects that were repaired (fix: commits C19-1 .. C19-9)
     sessions = []
+    for cpuname, syms, script in REGRESSION_SESSIONS:
+        lines = script.split("\n")
+        asm, i = [], 0
+        words = G.script_words(lines)
+        while i < len(words):
+            if words[i] == "asm":
+                j = i + 1
+                while j < len(lines) and lines[j].strip() != "":
+                    j += 1
+                asm.append((i, "\n".join(lines[i + 1:j])))
+                i = j
+            i += 1
+        sessions.append({"cpu": names[cpuname], "syms": syms, "lines": lines, "asm": asm})
     per = ctx.scale(14, 120)
     for cpu in reps:
         for i in range(per):
